@@ -122,6 +122,11 @@ def run_single(sched, with_pt, start):
                                    progress_type="silent", **kw)
     if np.abs(np.array(dyn2.states) - np.array(dyn.states)).max() > 1e-13:
         return np.array(dyn2.states), "REUSE-DIFFERS"
+    # only the final state recorded: every control must still act (the final state is the last recorded one)
+    dyn3 = oq.compute_dynamics(oq.System(H0), M.RHO_GEN2, control=ctrl, start_time=start, record_all=False,
+                               progress_type="silent", **kw)
+    if len(dyn3.states) != 1 or np.abs(np.array(dyn3.states)[0] - np.array(dyn.states)[-1]).max() > 1e-13:
+        return np.array(dyn.states), "FINAL-ONLY-DIFFERS"
     return np.array(dyn.states), buf.getvalue()
 
 
@@ -170,6 +175,10 @@ def worker(args):
                 continue
             got, printed = run_single(sched, with_pt, start)
             nruns += 2
+            if printed == "FINAL-ONLY-DIFFERS":
+                out.append((f"single|{dcls}|stack{stack}|final-state-with-record_all=False-differs",
+                            f"schedule {sched} pt={with_pt} start={start}: the only state returned with record_all=False is not "
+                            f"the last state of the full record"))
             if printed == "REUSE-DIFFERS":
                 out.append((f"single|{dcls}|stack{stack}|second-run-with-the-same-Control-object-differs",
                             f"schedule {sched} pt={with_pt} start={start}: reusing the Control object changes the result"))
